@@ -464,12 +464,22 @@ pub fn run_c09(ctx: &Ctx) -> Outcome {
          thorough; (2) generated GenCases incl. unsafe, rates NaN / +-inf / out of range through builder and public field, ranges (0,0), \
          min>max, reuse histories, alternative API entry points, up to 24 000 (quick) / 50 000 (thorough) opcodes; (3) long exhausted \
          inputs (1000..20 500 quick / ..50 000 thorough opcodes from empty / constant bytes: every choice falls back to index 0, deepest \
-         nesting). Oracle: Ok(non-empty); no panic (catch_unwind), no abort / stack overflow (child exit status; the killing case is \
+         nesting); (4) scripted towers `pre a^n mid b^m`: every one- and two-opcode word a (behind an optional one-opcode prefix) and every \
+         open^n filler close^n triple over the protocol's opcode table is tried at n = 12 / 6 through the scripted-choice hook, the shapes \
+         the generation loop follows are kept (one per word, growth, top of the final simulated stack and memo growth), classed by what they \
+         accumulate (retained generator bytes per repetition, counting allocator) and re-run at n = 12 000 in the optimised build (half for \
+         shapes that grow the stack; a seeded sample of the stack-growing and the inert shapes) and, one per skeleton (its non-push opcodes) of those that build nested or \
+         memoised structure, at n = 6 000 in an unoptimised one (60 000 and 20 000, all shapes, thorough), each followed by a second call on the same generator and its drop. Oracle: Ok(non-empty); no panic (catch_unwind), no abort / stack overflow (child exit status; the killing case is \
          identified from a per-thread breadcrumb and confirmed alone in a fresh process); runaway budgets never exhausted: emissions <= \
          100*max(min,max)+10^4 and entropy draws <= 10^5 per opcode + 10^6 (far above any legitimate generation; they turn loops that \
          keep emitting or keep drawing into deterministic failures). Non-trivial = degenerate configuration (unsafe, rate outside [0,1], \
          min >= max, fewer than 64 entropy bytes, or >= 5000 opcodes).",
     );
+    if std::env::var("C09_ONLY_TOWERS").is_ok() {
+        // development aid: part (4) alone
+        crate::props::towers::run(ctx, &mut out);
+        return out;
+    }
     run_c09_child(ctx, &mut out, &util::self_exe(), false, "");
     // the same generated configurations (without the exhaustive part) in a build WITHOUT debug assertions and
     // overflow checks: arithmetic that wraps instead of panicking must not turn into a runaway or a crash
@@ -480,6 +490,7 @@ pub fn run_c09(ctx: &Ctx) -> Outcome {
         }
     }
     dev_profile_probe(ctx, &mut out);
+    crate::props::towers::run(ctx, &mut out);
     out.assumptions = vec![
         "everything except the dev-profile probe runs an optimised build (opt-level 3, debug assertions on); all generation threads have 2 MiB stacks".into(),
         "a loop that spins without emitting is only caught by the watchdog and then reported as inconclusive (exit 2), never as a violation".into(),
